@@ -27,7 +27,8 @@ static std::string ok_bool(bool v) { return std::string("ok ") + bool_s(v); }
 typedef std::function<std::string()> Thunk;
 static std::string agree_guarded(const std::vector<std::pair<std::string, Thunk> >& fs) {
     std::vector<std::pair<std::string, std::string> > r;
-    for (size_t i = 0; i < fs.size(); ++i) { g_time_calls = 0; r.push_back(std::make_pair(fs[i].first, guarded(fs[i].second))); }
+    // the caller's errno may hold anything on entry: a stale non-zero value must not be taken for a failing clock
+    for (size_t i = 0; i < fs.size(); ++i) { g_time_calls = 0; errno = EINVAL; r.push_back(std::make_pair(fs[i].first, guarded(fs[i].second))); }
     return agree(r);
 }
 #define FORM(name, expr) fs.push_back(std::make_pair(std::string(name), Thunk([&]() -> std::string { return expr; })))
@@ -379,6 +380,16 @@ static std::string run(const std::vector<std::string>& a) {
         f.push_back(std::make_pair("ptr2", bool_s(constant_time_equal(x.data(), x.size(), y.data(), y.size()))));
         f.push_back(std::make_pair("vec2", bool_s(constant_time_equal(x, y))));
         f.push_back(std::make_pair("str2", bool_s(constant_time_equal(sx, sy))));
+        // an empty input may arrive as (nullptr, 0) or as (valid pointer, 0): every combination is the same empty byte string
+        static const uint8_t dummy[1] = {0};
+        const uint8_t* xn = x.empty() ? (const uint8_t*)0 : x.data(); const uint8_t* yn = y.empty() ? (const uint8_t*)0 : y.data();
+        const uint8_t* xv = x.empty() ? dummy : x.data();             const uint8_t* yv = y.empty() ? dummy : y.data();
+        f.push_back(std::make_pair("ptr-null-null", bool_s(constant_time_equals(xn, x.size(), yn, y.size()))));
+        f.push_back(std::make_pair("ptr-null-valid", bool_s(constant_time_equals(xn, x.size(), yv, y.size()))));
+        f.push_back(std::make_pair("ptr-valid-null", bool_s(constant_time_equals(xv, x.size(), yn, y.size()))));
+        f.push_back(std::make_pair("ptr-valid-valid", bool_s(constant_time_equals(xv, x.size(), yv, y.size()))));
+        { std::vector<uint8_t> xd, yr; if (!x.empty()) xd = x; if (y.empty()) yr.reserve(8); else yr = y;      // default-constructed vs reserved empty vectors
+          f.push_back(std::make_pair("vec-default-reserved", bool_s(constant_time_equals(xd, yr)))); }
         return agree(f);
     }
     if (op == "sha") return sha_forms(a[1], bx(a[2]));
